@@ -649,11 +649,39 @@ PLACES = [('augments', OT % 'AUGMENTS { %s }'), ('index', OT % 'INDEX { %s }'), 
 for _place, _tmpl in PLACES:
     for _sp in ('x(1)', 'enumSpec(1)', 'row(1)', 'x(1) 2'):
         ODD.append(('%s-spelled-%s' % (_place, _sp.replace(' ', '-')), _tmpl % _sp))
+
+
+def _handler_names():
+    # (the alphabet of names the code generators give to the kinds of sub-trees: an object may be called like any of them)
+    from pysmi.codegen.symtable import SymtableCodeGen
+    from pysmi.codegen.intermediate import IntermediateCodeGen
+    return sorted(set(SymtableCodeGen.handlersTable) | set(IntermediateCodeGen.handlersTable))
+
+
+for _nm in _handler_names():
+    if _nm[:1].islower() and _nm.replace('-', '').isalnum():
+        ODD.append(('augments-spelled-like-a-sub-tree-kind', OT % ('AUGMENTS { %s(1) }' % _nm)))
 CROSS = {
     'type-cycle-across-modules': {
         'A': 'A DEFINITIONS ::= BEGIN\nIMPORTS U FROM B OBJECT-TYPE, enterprises FROM SNMPv2-SMI;\nT ::= U\n'
              'x OBJECT-TYPE SYNTAX T MAX-ACCESS read-only STATUS current DESCRIPTION "d" DEFVAL { 1 } ::= { enterprises 1 }\nEND\n',
         'B': 'B DEFINITIONS ::= BEGIN\nIMPORTS T FROM A;\nU ::= T\nEND\n'},
+    # an OBJECT IDENTIFIER default naming a node of a module that has no symbol table in this call / that does not define it
+    'oid-default-from-a-missing-module': {
+        'A': 'A DEFINITIONS ::= BEGIN\nIMPORTS OBJECT-TYPE, enterprises FROM SNMPv2-SMI otherRoot FROM OTHER;\n'
+             'x OBJECT-TYPE SYNTAX OBJECT IDENTIFIER MAX-ACCESS read-only STATUS current DESCRIPTION "d" DEFVAL { otherRoot } ::= { enterprises 1 }\nEND\n'},
+    'oid-default-from-an-unparsable-module': {
+        'A': 'A DEFINITIONS ::= BEGIN\nIMPORTS OBJECT-TYPE, enterprises FROM SNMPv2-SMI otherRoot FROM OTHER;\n'
+             'x OBJECT-TYPE SYNTAX OBJECT IDENTIFIER MAX-ACCESS read-only STATUS current DESCRIPTION "d" DEFVAL { otherRoot } ::= { enterprises 1 }\nEND\n',
+        'OTHER': 'OTHER DEFINITIONS ::= BEGIN\notherRoot OBJECT OBJECT ::= { 1 3 }\nEND\n'},
+    'oid-default-the-exporter-lacks': {
+        'A': 'A DEFINITIONS ::= BEGIN\nIMPORTS OBJECT-TYPE, enterprises FROM SNMPv2-SMI otherRoot FROM OTHER;\n'
+             'x OBJECT-TYPE SYNTAX OBJECT IDENTIFIER MAX-ACCESS read-only STATUS current DESCRIPTION "d" DEFVAL { otherRoot } ::= { enterprises 1 }\nEND\n',
+        'OTHER': 'OTHER DEFINITIONS ::= BEGIN\nIMPORTS enterprises FROM SNMPv2-SMI;\nsomethingElse OBJECT IDENTIFIER ::= { enterprises 3 }\nEND\n'},
+    'oid-default-that-is-a-type-there': {
+        'A': 'A DEFINITIONS ::= BEGIN\nIMPORTS OBJECT-TYPE, enterprises FROM SNMPv2-SMI OtherType FROM OTHER;\n'
+             'x OBJECT-TYPE SYNTAX OBJECT IDENTIFIER MAX-ACCESS read-only STATUS current DESCRIPTION "d" DEFVAL { OtherType } ::= { enterprises 1 }\nEND\n',
+        'OTHER': 'OTHER DEFINITIONS ::= BEGIN\nOtherType ::= INTEGER\nEND\n'},
     'oid-cycle-across-modules': {
         'A': 'A DEFINITIONS ::= BEGIN\nIMPORTS b FROM B;\na OBJECT IDENTIFIER ::= { b 1 }\nEND\n',
         'B': 'B DEFINITIONS ::= BEGIN\nIMPORTS a FROM A;\nb OBJECT IDENTIFIER ::= { a 1 }\nEND\n'},
@@ -689,6 +717,8 @@ class SemanticOddities(object):
         else:
             label, body = ODD[case['odd']]
             texts = {'A': HDR + body + 'END\n'}
+            if label == 'augments-spelled-like-a-sub-tree-kind':
+                label += '|' + body.split('AUGMENTS { ')[1].split('(')[0]
             req = ['A', 'GOOD']
         texts['GOOD'] = 'GOOD DEFINITIONS ::= BEGIN\nIMPORTS enterprises FROM SNMPv2-SMI;\ngood OBJECT IDENTIFIER ::= { enterprises 77 }\nEND\n'
         sig = 'C07|semantic-defect|%s|%s' % (label, case['backend'])
